@@ -29,7 +29,7 @@ fn gen_seq(rng: &mut Rng) -> Case {
   let depth = if rng.below(12) == 0 { 29 } else { rng.below(7) as u8 };
   let nh = 12u64 << (2 * depth);
   let flag = rng.coin();
-  let cap = if rng.below(30) == 0 { 10_000 } else { 1 + rng.below(40) as usize };
+  let cap = match rng.below(60) { 0 | 1 => 10_000, 2 => 0, _ => 1 + rng.below(40) as usize };
   let n = if rng.below(20) == 0 { 0 } else { rng.below(250) as usize };
   let style = rng.below(6);
   let mut seq = Vec::new();
@@ -51,8 +51,9 @@ pub fn judge_seq(ctx: &mut Ctx, c: &Case) {
   let (depth, flag, cap, seq) = (c.gu("depth") as u8, c.gb("flag"), c.gu("cap") as usize, c.gul("seq"));
   ctx.eval();
   let mut want: Vec<u64> = seq.clone(); want.sort(); want.dedup();
-  let r = catch(|| { let mut b = BMOCBuilderFixedDepth::with_capacity(depth, flag, cap); for &h in seq.iter() { b.push(h); } b.to_bmoc() });
-  let forced = seq.len() > cap && want.len() < seq.len() || seq.windows(2).any(|w| w[0] > w[1]) && seq.len() > cap;
+  // capacity 0 in a case = the default constructor BMOCBuilderFixedDepth::new (10^7 entries buffer)
+  let r = catch(|| { let mut b = if cap == 0 { BMOCBuilderFixedDepth::new(depth, flag) } else { BMOCBuilderFixedDepth::with_capacity(depth, flag, cap) }; for &h in seq.iter() { b.push(h); } b.to_bmoc() });
+  let forced = cap > 0 && (seq.len() > cap && want.len() < seq.len() || seq.windows(2).any(|w| w[0] > w[1]) && seq.len() > cap);
   if forced { ctx.hard("seq:duplicates-or-disorder-with-intermediate-merges", &[depth as u64, cap as u64, seq.len() as u64, seq.iter().fold(0u64, |a, &x| a.wrapping_mul(31).wrapping_add(x))]); } else { ctx.bump("plain-sequences"); }
   match r {
     Err(p) => ctx.violation("fixed-depth-builder-panics", c.clone(), p),
